@@ -428,6 +428,8 @@ def run(tier: str) -> int:
         triples = json.loads((wd / "cases_small.json.triples").read_text())
         fams = families()
         degenerate_classes(rep)
+        common.apalache_laws(rep, wd, "PartialMergeUnbounded", "value_independent_laws_apalache",
+                             "arbitrary integer atoms, integer lists and sets with up to three elements, both nested classes")
         harvest_pipelines(rep, fams[0], triples, rng, wd, "harvest_pipelines[MetadataSchema]")
         for fam in fams:
             tagname = fam["name"].split()[0]
